@@ -130,6 +130,8 @@ class Ev:
                 if op in ("Eq", "Ne", "Lt", "Le", "Gt", "Ge"):
                     return Cond({"Eq": "==", "Ne": "!=", "Lt": "<", "Le": "<=", "Gt": ">", "Ge": ">="}[op], a - b)
             if op in ("Eq", "Ne") : return Cond("atom", atom="cmp?")
+            if op in ("Lt", "Le", "Gt", "Ge") and (isinstance(a, Unknown) or isinstance(b, Unknown)):
+                return Cond("atom", atom="cmp?")       # compared with a value that is not modelled (`wide <= usize::MAX as u128`): either way
             if op in ("BitAnd", "BitOr") and isinstance(a, Cond) and isinstance(b, Cond): return ("boolop", op, a, b)
             raise Inconclusive("binop %s %r %r" % (op, a, b))
         if k == "unop":
